@@ -612,6 +612,31 @@ impl Link {
         }
         Ok(tap[p.item_ends[1]..].to_vec())
     }
+    /// Length of the library's own greeting+READY at the start of its output (None until both
+    /// are complete). Cheap: only the first bytes of the tap are parsed.
+    pub fn lib_handshake_len(&self) -> Option<usize> {
+        let st = self.from_lib.0.lock().unwrap();
+        let head = &st.buf[..st.buf.len().min(700)];
+        let p = refcodec::parse_stream(head, refcodec::Strictness::LENIENT);
+        if p.items.len() >= 2 {
+            p.item_ends.get(1).copied()
+        } else {
+            None
+        }
+    }
+    /// Number of application bytes the library has written on this connection.
+    pub fn lib_traffic_len(&self) -> usize {
+        match self.lib_handshake_len() {
+            Some(h) => self.from_lib.tap_len().saturating_sub(h),
+            None => 0,
+        }
+    }
+    pub fn lib_traffic_from(&self, from: usize) -> Vec<u8> {
+        match self.lib_handshake_len() {
+            Some(h) => self.from_lib.tap_from(h + from),
+            None => vec![],
+        }
+    }
     /// Complete messages the library wrote after its handshake (strict: no residue allowed).
     pub fn lib_messages(&self) -> Result<Vec<Frames>, String> {
         refcodec::decode_messages_strict(&self.lib_traffic()?)
